@@ -94,6 +94,7 @@ impl Ctx {
                 }
                 _ => {
                     eprintln!("MACHINERY-ERROR cannot parse {}", path);
+                    crate::proc::kill_registered_children();
                     std::process::exit(2);
                 }
             }
